@@ -845,7 +845,7 @@ def run_case(spec, ctx):
         kind = {"contact-offset": "contact", "strpath-no-overwrite": "bodies", "bodies-system": "bodies",
                 "rod-centerline": "rod", "frames-stride": "bodies", "list-export": "contact",
                 "list-ragged": "contact"}[name]
-    t0 = 0.0 if rng.random() < 0.6 else float(rng.choice([0.5, -0.3, 2.0]))
+    t0 = 0.0 if rng.random() < 0.6 else float(rng.choice([0.5, -0.3, 2.0, 25000.0, -4000.0]))
     with _Quiet():
         if kind in ("bodies", "pendulum"):
             system, items = build_bodies(rng, C, t0, pendulum=(kind == "pendulum"))
@@ -867,6 +867,11 @@ def run_case(spec, ctx):
     solver_name = "Moreau" if rng.random() < 0.5 else "Rattle"
     if name == "frames-stride":
         nsteps, dt = 60, 1e-2
+    square = name not in ("frames-stride",) and kind != "rod" and rng.random() < 0.2 and 4 <= system.nq <= 61
+    if square:
+        # as many stored instants as the system has coordinates (or velocities): the stored fields are square
+        nsteps = int(system.nq if rng.random() < 0.6 else max(system.nu, 4)) - 1
+        ctx.cls("frames:as_many_as_coordinates")
     t1 = t0 + nsteps * dt
     try:
         with _Quiet():
@@ -886,6 +891,8 @@ def run_case(spec, ctx):
     fps = float(rng.choice([10, 24, 25, 30, 50, 60, 100, 200, 1000])) if rng.random() < 0.5 else max(1.0, N / stride_goal / max(T, 1e-9)) * float(rng.uniform(0.8, 1.2))
     if name == "frames-stride":
         fps = 20.0
+    if square:
+        fps = 1.5 / dt        # every stored instant is exported
     mode = ["system", "contr"][int(rng.integers(2))]
     use_str = bool(rng.random() < 0.35)
     pre = ["fresh", "exists-overwrite", "exists-keep"][int(rng.integers(3))]
